@@ -306,7 +306,9 @@ class Table(Vector):
 		"""Return list of available attributes including sanitized column names."""
 		# Use object.__dir__ to get instance attributes, then add column names
 		base_attrs = object.__dir__(self)
-		return set(list(self._build_column_map().keys()) + base_attrs)
+		# _build_column_map() marks every column tame: keep the map it returns, or a
+		# rename made through a live view (t.a.name = 'z') is never picked up again
+		return set(list(self._current_column_map().keys()) + base_attrs)
 	
 	def column_names(self):
 		"""Return list of column names (original names, not sanitized).
